@@ -55,7 +55,7 @@ func (c *check) Init(tier string, seed int64) engine.Space {
 	units := c.nStr + np // one unit per first token of a pair
 	return engine.Space{
 		Units: units, Chunk: 8, Level: "model_checking",
-		Rule: "every string of the prefix trees over the listed alphabets up to the listed lengths (index-addressable, shortest first) plus every ordered pair of a menu of component values; a case is non-trivial when its token list is error-free and non-empty, so that the round trip is actually compared",
+		Rule:   "every string of the prefix trees over the listed alphabets up to the listed lengths (index-addressable, shortest first) plus every ordered pair of a menu of component values; a case is non-trivial when its token list is error-free and non-empty, so that the round trip is actually compared",
 		Bounds: map[string]any{"string_spaces": c.ms.Bounds(), "pair_menu_tokens": np, "strings_total": c.ms.Total()},
 		Assumptions: []string{
 			"code points outside the class representatives of the alphabets behave like their representative",
